@@ -57,13 +57,24 @@ func runC16(c *core.Ctx) {
 	for i, a := range p.Args {
 		a.Name = names[i]
 	}
-	version := pi%5 == 1  // the application declares a version flag (an option like any other for the generated spec)
+	version := pi%5 == 1   // the application declares a version flag (an option like any other for the generated spec)
 	argsFirst := pi%4 == 2 // arguments declared before the options
-	model := p            // what the reference sees: the version flag is an option of the root
+	model := p             // what the reference sees: the version flag is an option of the root
 	if version {
 		model = &Prog{Opts: append([]*OptDecl{{Names: []string{"V", "version"}, Flag: true}}, p.Opts...), Args: p.Args}
 	}
 	explModel := gen.ImplicitProg(model)
+	envOnly := pi%11 == 5 // both twins also declare an option that has no name at all: it still counts for [OPTIONS]
+	if envOnly && len(model.Opts) == 0 {
+		q := *model
+		sq := &Node{K: KSeq, Kids: []*Node{{K: KOptional, Kids: []*Node{{K: KAllOpts}}}}}
+		for _, a := range model.Args {
+			sq.Kids = append(sq.Kids, &Node{K: KArg, Arg: a})
+		}
+		q.AST = sq
+		q.Spec = sq.String()
+		explModel = &q
+	}
 	expl := &Prog{Opts: p.Opts, Args: p.Args, Spec: explModel.Spec, AST: explModel.AST}
 	argv := gen.Argv(c.R, explModel, gen.Cfg{})
 	if hasHelp(argv) {
@@ -73,6 +84,7 @@ func runC16(c *core.Ctx) {
 	single := func(q *Prog) *drive.App {
 		a := drive.Single(q)
 		a.Version, a.ArgsFirst = version, argsFirst
+		a.Root.EnvOnlyOpt = envOnly
 		if withSub {
 			a.Root.Kids = []*drive.Cmd{{ID: 1, Aliases: []string{"zz-sub-command"}, Prog: &Prog{}, Parent: a.Root, Action: drive.Beh{Kind: drive.BehReturn}}}
 		}
